@@ -1499,7 +1499,22 @@ func (w *w3World) checkReceived() {
 				continue
 			}
 			if r.Offset > 0 {
-				if ch := w.log[r.Epoch][r.Offset]; ch != nil && (ch.Key != r.Key || ch.Removed || ch.Data != r.Data) {
+				ch := w.log[r.Epoch][r.Offset]
+				if ch != nil && (ch.Key != r.Key || ch.Removed || ch.Data != r.Data) {
+					// an entry carries no epoch of its own: the epoch is the one of the reply it
+					// arrived with or after. A Clear racing the subscribe puts a change of the
+					// NEW epoch among the buffered publications of a reply that still names the
+					// old one (the position check ends that subscription later; C14-5-5769):
+					// the payload is right if it is what was published at that offset in any epoch
+					for _, lg := range w.log {
+						if o := lg[r.Offset]; o != nil && o.Key == r.Key && !o.Removed && o.Data == r.Data {
+							ch = nil
+							s.Probe("entry_of_another_epoch_than_its_reply")
+							break
+						}
+					}
+				}
+				if ch != nil && (ch.Key != r.Key || ch.Removed || ch.Data != r.Data) {
 					s.Violate(prop, clause, "delivered payload differs from the publication with that offset on "+r.Path+sfx,
 						"client %d path %s key %s offset %d delta=%v: got %q, published %q (key %s)", cl.idx, r.Path, r.Key, r.Offset, r.Delta, r.Data, ch.Data, ch.Key)
 				}
